@@ -355,6 +355,16 @@ package parser
 //@   modifies *
 //@   assert before writeIndent#1: len(arg2) == 1 && html.UnescapeString(vtext(old(ca), arg2[0])) == old(ca.Value) && isPrefix(cat(old(ca.Name), "="), arg2[0])
 
+// Static text is generated byte for byte from Text.Value: what the formatter writes back for it is that value
+//@ func (Text) Write [C08]
+//@   modifies *
+//@   assert before writeIndent#1: len(arg2) == 1 && arg2[0] == old(t.Value)
+//@ func (BoolConstantAttribute) String [C08]
+//@   inline
+//@ func (BoolConstantAttribute) Write [C08]
+//@   modifies *
+//@   assert before writeIndent#1: len(arg2) == 1 && arg2[0] == old(bca.Name)
+
 // C06: ParseString parses exactly the text it is given, from its first byte: every position the parser records is a
 // position in the caller's string (inputs of 2 GiB and more are outside the claim).
 //@ func ParseString [C06]
